@@ -11,13 +11,13 @@ import (
 // (re)configured per scenario: knobs, point counters, armed faults and, for concurrent
 // profiles, the cooperative scheduler.
 type simHooks struct {
-	mu      sync.Mutex
-	knobs   map[string]int64
-	hits    map[string]int64
-	onPoint func(owner any, name string, hit int64) // called outside mu
-	onFault func(owner any, name string, hit int64) error
+	mu        sync.Mutex
+	knobs     map[string]int64
+	hits      map[string]int64
+	onPoint   func(owner any, name string, hit int64) // called outside mu
+	onFault   func(owner any, name string, hit int64) error
 	onFaultOn func(owner any, name string, subject any, hit int64) error
-	sched   *Sched
+	sched     *Sched
 }
 
 var hooks = &simHooks{knobs: map[string]int64{}, hits: map[string]int64{}}
